@@ -20,7 +20,7 @@
      - involutions: flip_invol, flip_mirror_ok, mirror_env_invol, mirror_st_invol, mirror_st_ok_mirror
      - EndZ under endz_strict: mirror_sem_endz_to_end, mirror_sem_endz_strict_partial,
        mirror_find_endz_strict_partial
-     - NOT symmetric: mirror_balance_refuted (capture-recording balancing groups),
+     - NOT symmetric: mirror_balance_example (capture-recording balancing groups),
        mirror_endz_no_mirror_anchor (non-strict EndZ has no mirror anchor)
 
    All lemma names are prefixed mirror_/flip_ (topic prefix). *)
@@ -101,7 +101,7 @@ Definition opt_forall (f : node -> bool) (o : option node) : bool :=
 (* The fragment the mirror theorem covers.  Excluded:
      - the anchor EndZ (no mirror anchor exists in the node language);
      - balancing groups (?<g-u>...) that RECORD a capture (u <> -1 and g <> -1): [balance_span] is
-       not mirror-symmetric (see mirror_balance_refuted);  pure pops (?<-u>...) are covered;
+       not mirror-symmetric (see mirror_balance_example);  pure pops (?<-u>...) are covered;
      - single-character loops with a negative minimum (never produced by the parser; a negative
        minimum would let the loop walk out of the text). *)
 Fixpoint mirror_ok (t : node) : bool :=
@@ -1240,14 +1240,16 @@ Definition mirror_ex_balance : node :=
    right-to-left pattern (?<b-a>y)z(?<a>x) on "yzx") [balance_span] = runner.go transferCapture takes
    its second branch ("end <= start2: start = start2") and records index 2, length -1.
    The real engine does the same (and its tidy step then drops the negative-length capture). *)
-Theorem mirror_balance_refuted :
+(* UPDATE: transferCapture was repaired in /repo (cd1c469) and balance_span follows it: the second
+   branch now records the interval between the two spans, so this example IS mirror-symmetric. *)
+Theorem mirror_balance_example :
   let e := mirror_ex_env [120; 122; 121] 0 false in
   let s := {| pos := 0; caps := [] |} in
   st_ok e s /\
   map_res (map (mirror_st e)) (sem e 10 mirror_ex_balance s)
     = Ok [{| pos := 0; caps := [(1, []); (2, [(1, 1)])] |}] /\
   sem (mirror_env e) 10 (flip mirror_ex_balance) (mirror_st e s)
-    = Ok [{| pos := 0; caps := [(1, []); (2, [(2, -1)])] |}].
+    = Ok [{| pos := 0; caps := [(1, []); (2, [(1, 1)])] |}].
 Proof.
   cbv zeta. split; [|split; vm_compute; reflexivity].
   split; [vm_compute; split; congruence|constructor].
